@@ -9,6 +9,8 @@ import (
 	"go/token"
 	"go/types"
 	"strings"
+
+	"golang.org/x/tools/go/cfg"
 )
 
 func init() { register("C08", false, runC08) }
@@ -32,6 +34,77 @@ func runC08(c *Ctx) {
 	c08RunLoop(c)
 	parserOwnership(c, "C08.b")
 	c08TimerHazard(c)
+	c08TimerStopped(c)
+	c.expect("C08.d", 2)
+}
+
+// c08TimerStopped: the Escape timer is armed in exactly one place and is stopped after every read,
+// before the byte is interpreted ("an ESC promptly followed by further bytes is never reported as Escape").
+func c08TimerStopped(c *Ctx) {
+	pk := c.P.Pkg("ansi")
+	info := pk.TypesInfo
+	rr := c.P.Func("ansi.(*Parser).readRune")
+	if rr == nil {
+		c.undecided("C08.d", "ansi.(*Parser).readRune", 0, "readRune not found")
+		return
+	}
+	g := c.P.Graph(rr)
+	reads := g.Calls(func(fn *types.Func, _ *ast.CallExpr) bool { return fn != nil && fullName(fn) == "bufio.Reader.ReadRune" })
+	isStop := func(n ast.Node) bool {
+		call, ok := n.(*ast.CallExpr)
+		if !ok {
+			return false
+		}
+		sel, ok := call.Fun.(*ast.SelectorExpr)
+		return ok && sel.Sel.Name == "Stop" && canonPath(info, sel.X) == "Parser.escTimeout"
+	}
+	stops := g.Find(isStop)
+	ok := len(reads) >= 1 && len(stops) >= 1
+	why := "readRune does not stop the Escape timer"
+	if ok {
+		// the stop is guarded by nothing but the nil test, and that test is on every path from the first read to the exit
+		for _, st := range stops {
+			for _, k := range guardKeys(g, st.Loc) {
+				if k != "Parser.escTimeout!=nil" {
+					ok, why = false, "the timer is stopped only under "+k
+				}
+			}
+		}
+		st := stops[0]
+		var testBlock *cfg.Block
+		for _, gd := range g.Guards(st.Loc) {
+			testBlock = gd.From
+		}
+		reachedExit := false
+		g.walk(Loc{reads[0].Loc.B, reads[0].Loc.Idx + 1}, func(l Loc, n ast.Node) bool {
+			if testBlock != nil && l.B == testBlock {
+				return false
+			}
+			return !containsNode(n, isStop)
+		}, func(b *cfg.Block) { reachedExit = true })
+		if reachedExit {
+			ok, why = false, "some path from the read to the return of readRune does not stop the timer"
+		}
+	}
+	c.check(ok, "C08.d", rr.Name+"/Escape timer stopped after every read", rr.Decl.Pos(), "every byte that arrives cancels a pending Escape timeout before it is interpreted", why+": an ESC promptly followed by ESC/CAN/SUB (handled before the escape state runs) is still reported as Escape 10 ms later")
+	// armed only where ESC is recognised
+	n := 0
+	where := ""
+	for _, fi := range c.P.FuncsIn("ansi") {
+		if fi.Decl.Body == nil {
+			continue
+		}
+		ast.Inspect(fi.Decl.Body, func(x ast.Node) bool {
+			if call, ok := x.(*ast.CallExpr); ok {
+				if fn := calleeOf(info, call); fn != nil && (fullName(fn) == "time.AfterFunc" || fullName(fn) == "time.NewTimer") {
+					n++
+					where = fi.Name
+				}
+			}
+			return true
+		})
+	}
+	c.check(n == 1, "C08.d", "ansi/Escape timer armed in one place", rr.Decl.Pos(), "armed in "+where, fmt.Sprintf("%d timer creations in package ansi", n))
 }
 
 func ansiFieldPath(info *types.Info, e ast.Expr) string {
